@@ -127,6 +127,8 @@ class Root(object):
                     f.write(data)
                 _INIT['written'] = (path, data)
             ctype = CTS[c.get('ct', 'html')]
+            if c.get('hcl'):
+                resp.headers['Content-Length'] = str(len(data))
             if st[0] == 's':
                 resp.status = int(st[1:])
             return _static.serve_file(path, content_type=ctype)
